@@ -36,7 +36,7 @@ m = {
     ],
     "checks": checks,
     "not_applicable": [x for x in NOT_YET if x["property_id"] not in PROPS],
-    "notes": "fix: commits in /repo: 70af8c0 (F5), 871834b (F6), 777ce38 (F4); see known_findings.json and DESIGN.md.",
+    "notes": "fix: commits in /repo: 70af8c0 (F5, C06), 871834b (F6, C06), 777ce38 (F4, C19), 07f6a2c (F2, C11/C04), 6de718b (F1, C18), d16bcfc (F3, C03/C10); known findings F7 (C02), F8 (C05); see known_findings.json and DESIGN.md sections 5 and 9.",
 }
 json.dump(m, open(os.path.join(root, "MANIFEST.json"), "w"), indent=1)
 print("checks:", [c["property_id"] for c in checks])
